@@ -59,6 +59,9 @@ MUTANTS = [
     ('c06-ignore-requested-newer-id', 'C06', ZQ,
      "            if prev_id >= msg_id and not ephemeral:  # if requesting higher frame number than we are sending then discard and return\n",
      "            if False:\n", 1200),
+    ('c06-timed-out-required-still-connected', 'C06', ZQ,
+     "            client_ids = set(client.client_id for client in clients.values() if client.t_last >= t_min)  # timed out clients (removed below) do not count as connected required outputs\n",
+     "            client_ids = set(client.client_id for client in clients.values())\n", 1200),
     ('c07-publish-on-all-outputs', 'C07', ZQ,
      "                pubs        = [self.pubs[self.pulls.index(out_pull)]]\n",
      "                pubs        = self.pubs\n", 600),
